@@ -310,6 +310,12 @@ def _build_isotherm(it, desc):
     iso = _construct_isotherm(it, kw)
     if ref[0] == "custom":
         iso.adsorbate = _build_adsorbate(ref)
+    # the labels a permanent conversion (convert_loading / convert_pressure) leaves behind for unit-less
+    # representations: stated explicitly so that the stored object does not depend on constructor defaulting
+    if iso.loading_basis in ("fraction", "percent"):
+        iso.loading_unit = None
+    if iso.pressure_mode != "absolute":
+        iso.pressure_unit = None
     return iso
 
 
